@@ -65,6 +65,7 @@ type sitesFile struct {
 	MapRangeLocs []string `json:"map_range_locs"`
 	LockShims    int      `json:"lock_shims"`
 	OnceShims    int      `json:"once_shims"`
+	ChanShims    int      `json:"chan_shims"`
 	GoStmts      int      `json:"go_statements"`
 	GoStmtLocs   []string `json:"go_statement_locs"`
 	HotSites     int      `json:"hot_sites"`
@@ -282,6 +283,38 @@ func main() {
 				}
 				return ""
 			}
+			// channel operations that are the communication of a select case keep
+			// their form (select is not shimmed); `v, ok := <-ch` needs Recv2
+			inSelect := map[ast.Node]bool{}
+			recv2 := map[ast.Node]bool{}
+			ast.Inspect(f, func(n ast.Node) bool {
+				switch x := n.(type) {
+				case *ast.CommClause:
+					switch c := x.Comm.(type) {
+					case *ast.SendStmt:
+						inSelect[c] = true
+					case *ast.ExprStmt:
+						inSelect[ast.Unparen(c.X)] = true
+					case *ast.AssignStmt:
+						if len(c.Rhs) == 1 {
+							inSelect[ast.Unparen(c.Rhs[0])] = true
+						}
+					}
+				case *ast.AssignStmt:
+					if len(x.Lhs) == 2 && len(x.Rhs) == 1 {
+						if u, ok := ast.Unparen(x.Rhs[0]).(*ast.UnaryExpr); ok && u.Op == token.ARROW {
+							recv2[u] = true
+						}
+					}
+				case *ast.ValueSpec:
+					if len(x.Names) == 2 && len(x.Values) == 1 {
+						if u, ok := ast.Unparen(x.Values[0]).(*ast.UnaryExpr); ok && u.Op == token.ARROW {
+							recv2[u] = true
+						}
+					}
+				}
+				return true
+			})
 			skipCalls := map[*ast.CallExpr]bool{}
 			skipBlocks := map[*ast.BlockStmt]bool{}
 			ast.Inspect(f, func(n ast.Node) bool {
@@ -315,6 +348,26 @@ func main() {
 							sf.MapRangeLocs = append(sf.MapRangeLocs, fmt.Sprintf("%s:%d", rel, pos.Line))
 						}
 					}
+				case *ast.SendStmt:
+					// ch <- v   ->   __simrt.Send(ch, v)
+					if inSelect[x] {
+						return true
+					}
+					add(offset(x.Pos()), offset(x.Pos()), "__simrt.Send(")
+					add(offset(x.Chan.End()), offset(x.Value.Pos()), ", ")
+					add(offset(x.End()), offset(x.End()), ")")
+					sf.ChanShims++
+				case *ast.UnaryExpr:
+					if x.Op != token.ARROW || inSelect[x] {
+						return true
+					}
+					if recv2[x] {
+						add(offset(x.Pos()), offset(x.X.Pos()), "__simrt.Recv2(")
+					} else {
+						add(offset(x.Pos()), offset(x.X.Pos()), "__simrt.Recv(")
+					}
+					add(offset(x.End()), offset(x.End()), ")")
+					sf.ChanShims++
 				case *ast.GoStmt:
 					sf.GoStmts++
 					pos := fset.Position(x.Pos())
@@ -409,6 +462,6 @@ func main() {
 	if err := os.WriteFile(*sitesOut, jb, 0o644); err != nil {
 		die("%v", err)
 	}
-	fmt.Fprintf(os.Stderr, "cvssinst: %d packages, %d files, %d yield sites (%d hot), %d map ranges, %d lock shims, %d once shims, %d go statements\n",
-		len(mods), sf.Files, len(sf.Sites), sf.HotSites, sf.MapRanges, sf.LockShims, sf.OnceShims, sf.GoStmts)
+	fmt.Fprintf(os.Stderr, "cvssinst: %d packages, %d files, %d yield sites (%d hot), %d map ranges, %d lock shims, %d once shims, %d channel shims, %d go statements\n",
+		len(mods), sf.Files, len(sf.Sites), sf.HotSites, sf.MapRanges, sf.LockShims, sf.OnceShims, sf.ChanShims, sf.GoStmts)
 }
